@@ -79,6 +79,11 @@ def is_now(d):
     return isinstance(d, tuple) and d[0] == "call" and d[1] == "common::now"
 
 
+def reads_state(d):
+    """The description mentions a read of this coroutine's state cell: `self.state()` or `self.state.get()`."""
+    return contains(d, "Coroutine::state") or (contains(d, "cell::Cell::get") and contains(d, ".state"))
+
+
 def interpret(conds):
     """-> (constraint dict, unknown list). constraint: variants(set) due same sub(set)"""
     c = {"variants": set(BASE), "due": None, "same": None, "sub": set(SUB)}
@@ -108,7 +113,7 @@ def interpret(conds):
                     c["variants"] &= {"Suspend"}
             elif is_eq_call(d) and find_agg(d[2], ST):
                 ag = find_agg(d[2], ST)
-                if ag and contains(d[2], "Coroutine::state"):
+                if ag and reads_state(d[2]):
                     if val:
                         c["variants"] &= {ag[2]}
                     else:
